@@ -303,7 +303,8 @@ Proof.
     assert (R : repl_node cat h (getn h n) =
                 mkN (n_ns (getn h n)) (n_name (getn h n)) attrs tx (n_kids (getn h m))).
     { unfold repl_node. rewrite Eg, Ec. rewrite Ea, Ek. cbn [app].
-      unfold is_named at 1. rewrite Ehn. cbn. rewrite <- Eattrs, <- Etx. reflexivity. }
+      cbn [remove_first]. unfold is_named at 1. rewrite Ehn. cbn [N.eqb NM_HREF Pos.eqb].
+      rewrite <- Eattrs, <- Etx. reflexivity. }
     rewrite R. cbn [n_kids n_ns n_name n_attrs n_text].
     rewrite (outl_list_inline cat h (kmax ks) NC ks _ IH (le_n _) Ok).
     rewrite Ens, Enm. reflexivity.
